@@ -150,14 +150,16 @@ def program(spec: EnumSpec, pname, tier, cap, ladder=False):
                       desc="from_str(s) and try_from(s) vs reference parser for every valid UTF-8 s of <= %d bytes" % N,
                       bound={"N_bytes": N, "alphabet": "all valid UTF-8", "unwind": N + 2}, min_covers=ncov, functions=fns))
     ws = witness_inputs(spec, limit=(16 if tier == "quick" else 48))
-    wb = []
-    for w in ws:
-        wb.append("    { let ss = SymStr::<16>::fixed(%s); let s = ss.as_str(); let o = oracle(ss.bytes());" % rust_bytes(w.encode()))
-        wb.append("      let r = <%s as core::str::FromStr>::from_str(s); check_parse(&r, o, ss.bytes()); core::mem::forget(r);" % spec.ty())
-        wb.append("      let t = <%s as core::convert::TryFrom<&str>>::try_from(s); check_parse(&t, o, ss.bytes()); core::mem::forget(t); }" % spec.ty())
-    hs.append(Harness(name="h_from_str_witness", body="\n".join(wb), unwind=20, kind="witness",
-                      desc="fixed inputs derived from the spellings (case flips, identifiers, outer whitespace, one-char edits, look-alikes): %s" % ", ".join(repr(w) for w in ws),
-                      bound={"inputs": ws}, functions=fns))
+    for ci in range(0, len(ws), 4):
+        chunk = ws[ci:ci + 4]
+        wb = []
+        for w in chunk:
+            wb.append("    { let ss = SymStr::<16>::fixed(%s); let s = ss.as_str(); let o = oracle(ss.bytes());" % rust_bytes(w.encode()))
+            wb.append("      let r = <%s as core::str::FromStr>::from_str(s); check_parse(&r, o, ss.bytes()); core::mem::forget(r);" % spec.ty())
+            wb.append("      let t = <%s as core::convert::TryFrom<&str>>::try_from(s); check_parse(&t, o, ss.bytes()); core::mem::forget(t); }" % spec.ty())
+        hs.append(Harness(name="h_from_str_witness_%d" % (ci // 4), body="\n".join(wb), unwind=20, kind="witness",
+                          desc="fixed inputs derived from the spellings (case flips, identifiers, outer whitespace, one-char edits, look-alikes): %s" % ", ".join(repr(w) for w in chunk),
+                          bound={"inputs": chunk}, functions=fns))
     return Program(name=pname, enum_src=src, helper_src=helper, harnesses=hs, summary=render_enum(spec), role=spec.role, note=spec.note)
 
 
